@@ -2582,8 +2582,9 @@ func CreateRevocationList(rand io.Reader, template *RevocationList, issuer *Cert
 	}
 
 	digest := tbsCertListContents
-	switch hashFunc {
-	case SM3:
+	_, signerIsSM2 := priv.Public().(*sm2.PublicKey)
+	switch {
+	case signerIsSM2: // SM2 signs the message itself, whichever SM2 algorithm identifier is requested
 		break
 	default:
 		h := hashFunc.New()
